@@ -2013,6 +2013,11 @@ terrorNotEnoughExports(Stab stab, AbSyn ab, TPoss tposs, Bool onlyWarning)
 		terrorPutConditionallyDefinedExports(obuf, stab, mods, ab, isymes);
 	}
 done:
+	/* Without details nothing has been written, and an unwritten
+	 * buffer is not a string: say at least what is wrong. */
+	if (bufPosition(obuf) == 0)
+		bufPrintf(obuf, "%s", comsgString(ALDOR_D_TinMissingExports));
+
 	if (onlyWarning)
 		comsgWarning(ab, ALDOR_E_ExplicitMsg, bufChars(obuf));
 	else
